@@ -10,7 +10,7 @@ META = dict(
     technique='Lean 4 theorems about an executable model of VerifyTransaction (crypto primitives as parameters) '
               '+ differential correspondence against the real TxPool.VerifyTransaction / eth_tx code with crypto oracle fields',
     level_text='proof',
-    level_note='97 Lean theorems about the executable model of VerifyTransaction that the driver runs; crypto '
+    level_note='102 Lean theorems about the executable model of VerifyTransaction that the driver runs; crypto '
                'primitives are parameters (soundness ends in explicit collision / second-signature witnesses); '
                'two clauses are false of the code and proved partial with counterexamples (unprotected v=27/28 '
                'payloads, recovery-id alias of Sign) and recorded as known findings; one defect fixed '
@@ -168,7 +168,7 @@ def _admission_runs(ctx, res, overlay):
             return
         res['evaluations'] += got['elements']
         res['distinct_nontrivial'] += got['elements']
-        adm['runs'].append(dict(build=outname, race=race, batches=got['batches'], elements=got['elements'],
+        adm['runs'].append(dict(build=outname, race=race, sequences=got.get('sequences'), batches=got['batches'], elements=got['elements'],
                                 honest=got['honest'], forged=got['forged'], by_entry=got['by_entry']))
     res['admission'] = adm
     ctx.note('admission: %s' % json.dumps(adm['runs'])[:300])
